@@ -32,6 +32,7 @@ let parse_op s =
   else match s with
     | "sin" -> OSend (CI, None) | "son" -> OSend (CO, None)
     | "rp" -> ORecv WPoll | "rn" -> ORecv WNever | "rt" -> ORecv WTimed
+    | "ur" -> OUser UReg | "uu" -> OUser UUnreg | "up" -> OUser UPing | "ue" -> OUser UEat
     | "st" -> OStart | "sd0" -> OShutdown false | "sd1" -> OShutdown true | "jn" -> OJoin | "gs" -> OGetSock
     | _ -> failwith ("bad op " ^ s)
 
@@ -58,7 +59,7 @@ let parse_case line =
           | Some c -> (parse_num (String.sub tk 0 c), parse_op (String.sub tk (c+1) (String.length tk - c - 1)))) toks in
       List.iter (fun (t, o) ->
         if t > 15 then failwith "tid";
-        (match o with OSend _ -> () | _ -> if t <> 0 then failwith "owner-only")) toks;
+        (match o with OSend _ | OUser UPing -> () | _ -> if t <> 0 then failwith "owner-only")) toks;
       let maxt = List.fold_left (fun m (t, _) -> max m t) (-1) toks in
       let n = max 1 (max !n (maxt+1)) in
       if n > 16 then failwith "n";
@@ -70,15 +71,16 @@ let parse_case line =
     with _ -> None)
 
 (* the subclass's reaction to Message <id>: the same function as react() in harness/threadq_h.cpp *)
-let react (x : nat) : msg list * bool =
+let react (x : nat) : (chanid * msg) list * bool =
   let id = int_of_nat x in
-  let r j = Some (nat_of_int (1000 + id*10 + j)) in
+  let r j = (CO, Some (nat_of_int (1000 + id*10 + j))) in
   match id mod 8 with
+  | 1 -> ([(CI, Some (nat_of_int (2000 + id*8)))], false)      (* to itself *)
   | 2 -> ([r 0], false)
   | 3 -> ([r 0; r 1], false)
   | 4 -> ([r 0], true)
   | 5 -> ([], true)
-  | 6 -> ([None], false)
+  | 6 -> ([(CO, None)], false)
   | 7 -> ([r 0; r 1; r 2], false)
   | _ -> ([], false)
 
@@ -89,11 +91,12 @@ let b01 b = if b then "1" else "0"
 
 let dump (g : gst) =
   let c x = Printf.sprintf "%s/%d/%d" (String.concat "," (List.map msg_text x.c_q)) (int_of_nat x.c_sig) (int_of_n x.c_wc) in
-  Printf.sprintf "{a%sr%so%s|%s|%s}" (b01 g.g_alloc) (b01 g.g_running) (b01 g.g_iopen) (c g.g_ci) (c g.g_co)
+  Printf.sprintf "{a%sr%so%s|%s|%s|u%s,%d,%s}" (b01 g.g_alloc) (b01 g.g_running) (b01 g.g_iopen) (c g.g_ci) (c g.g_co)
+    (b01 g.g_usr.u_reg) (int_of_nat g.g_usr.u_bytes) (b01 g.g_usr.u_flag)
 
 let res_text = function
   | ROk -> "ok" | RMsg (m, l) -> Printf.sprintf "m%s/%d" (msg_text m) (int_of_nat l)
-  | RTimedOut -> "to" | RBadObject -> "bo" | RAlreadyRunning -> "ar" | RVoid -> "v"
+  | RTimedOut -> "to" | RBadObject -> "bo" | RAlreadyRunning -> "ar" | RVoid -> "v" | RIoReady -> "io" | RNotFound -> "nf"
 
 let max_decisions = 4000
 let timeout_weight = 15L
